@@ -114,6 +114,24 @@ add('C12', 'runtime monitoring under a deterministic thread scheduler (sys.settr
     'DESIGN.md section 3, C12')
 
 
+add('C13', 'runtime monitoring: wsgiref.validate around every exchange, a recording start_response/iterable probe, module-local '
+           'open() tracking for file release, recording wsgi_wrapper middlewares, recording RerouteWSGI targets',
+    'Every response kind of a scenario application (plain, streamed, rendered, static via StaticApplication and StaticFileRoute with '
+    'and without a server file_wrapper, 304, redirect, 404/405/500, debug pages, meta pages, gzip/cache-processed) x GET/HEAD/POST/'
+    'OPTIONS x header sets passes through the standard validator; call counts, body-for-HEAD and file closure are asserted '
+    'directly; random stacks of wrapper middlewares over application/embedded/route level and applications without routes must nest '
+    'in the stated order; RerouteWSGI targets must receive the identical environ object and be relayed verbatim.',
+    'DESIGN.md section 3, C13')
+add('C14', 'runtime monitoring with fault enumeration: byte comparison against an independent path mapping over an enumerated '
+           'segment space, an open() audit hook, and the k-th-filesystem-call x errno fault sweep',
+    'A generated tree with secrets beside and above the roots is served under six configurations (1-2 search paths, two overlapping '
+    'applications, three mount prefixes, three slash modes); every sequence of <=3 (thorough <=4) segments from a 19-word vocabulary '
+    '(names, ".", "..", "", "...", pieces of the absolute root and secret paths) is requested as raw PATH_INFO (52 000 requests per '
+    'quick run) and judged; every served file is re-requested conditionally; for sampled requests each filesystem call made before the '
+    'callable returns fails in turn with ENOENT/EACCES/EIO/EISDIR.',
+    'DESIGN.md section 3, C14', category='fault_enumeration')
+
+
 def main():
     present = sorted(p for p in CHECKS if os.path.exists(os.path.join(HERE, 'vt', 'checks', p + '.py')))
     checks = []
